@@ -2,3 +2,6 @@ import XcpModel.Bytes
 import XcpModel.Libfs
 import XcpModel.Backup
 import XcpModel.Feedback
+import XcpModel.Pool
+import XcpModel.Handle
+import XcpModel.Node
